@@ -56,7 +56,7 @@ func ParseFinalRegistrySource(given string) (RegistrySourceFinal, error) {
 			addr = fmt.Sprintf("%s//%s", addr, matches[4])
 		}
 	}
-	version, err := versions.ParseVersion(ver)
+	version, err := parseSelectedVersion(ver)
 	if err != nil {
 		return RegistrySourceFinal{}, fmt.Errorf("invalid version: %w", err)
 	}
@@ -65,6 +65,18 @@ func ParseFinalRegistrySource(given string) (RegistrySourceFinal, error) {
 		return RegistrySourceFinal{}, fmt.Errorf("invalid registry source: %w", err)
 	}
 	return regSrc.Versioned(version), nil
+}
+
+// parseSelectedVersion is [versions.ParseVersion] except that a version number
+// too large to represent, which that function reports by panicking, is
+// returned as an error like any other invalid version.
+func parseSelectedVersion(s string) (v versions.Version, err error) {
+	defer func() {
+		if r := recover(); r != nil {
+			v, err = versions.Unspecified, fmt.Errorf("invalid version number: %v", r)
+		}
+	}()
+	return versions.ParseVersion(s)
 }
 
 // Unversioned returns the address of the registry package that this final
